@@ -148,6 +148,10 @@ def blackhole_scenario(args):
     if two_streams:
         one_way = False
         cfg.update(ncomp=1, newargs=f" idle={rng.choice([150, 300, 600])}")
+    # a quarter of the sessions use reliable agents (pseudo-TCP over UDP pairs): their checks on UDP pairs follow the same
+    # N-transmission schedule — the one-shot "reliable" timer is for checks sent over TCP sockets only
+    if rng.random() < 0.25:
+        cfg.update(extra_opts=2)
     s = None
     bad = []
     npairs = 0
